@@ -5,9 +5,9 @@ the istream state bits and the put-back buffer, and explicit outcomes NullDeref 
 the pinned code ({}) or the code with the proposed repairs (AllFixes = the specification).  TLC checks, for every text
 of each explored space (prefix . w, |w| <= n):
   Ini.tla      / Fixes = AllFixes : ParseTotal, ReadWriteRead, NeverRejects (Ini.cfg)
-  IniTrace.tla / both             : Combined = the same three + RepairsConservative (the repairs change what is read only
-                                    where the pinned tree crashes or breaks the round trip) + PinnedRestricted (what the
-                                    pinned tree does satisfy), per explored space
+  IniTrace.tla / both             : Combined = the same three + PinnedRestricted (what the pinned tree does satisfy:
+                                    never hangs, aborts only on texts with a backslash, round trip of configurations
+                                    that need no escape), per explored space
   IniTrace.tla / configurations   : PrintParse on the documented configurations (both transcriptions)
   Ini.tla      / Fixes = {}       : the unrestricted properties -- expected violated while /repo is unrepaired; recorded
 Conformance: harness/ini.cc runs read_config / write_config / read_config on exactly the texts TLC enumerated (alphabet
@@ -33,6 +33,7 @@ FRAGMENTS = [["[", "s", "]", "\n"], ["[", "t", " ", "u", "]"], ["s", "]"], ["x",
              ["\\", ";"], ["\\", "\\"], ["\\", ","], ["\\", "{"], ["\\", "}"], ["\\", "["], ["\\", "]"], ["\\", "="], ["\\", "#"], ["\\", "a"], ["\\", "t"], ["\\", "x"],
              ["\\", "\n"], ["\\"], [";", " ", "c", "\n"], ["#", "c", "\n"], [";"], ["h", "t", "t", "p", ":", "/", "/", "h", "?", "a", "=", "b"], ["^", "f", ".", "*", "$"]]
 
+NOTE = ["-noGenerateSpecTE"]   # a violated model must not leave *_TTrace_* files in spec/
 DEFAULTS = {"Parse": ',"ok":false,"cfg":[]', "RoundTrip": ',"ok1":false,"cfg1":[],"printed":"","ptoks":[],"ok2":false,"cfg2":[]',
             "PrintParse": ',"printed":"","ptoks":[],"ok2":false,"cfg2":[]'}
 
@@ -104,7 +105,7 @@ def ini_spaces(c, tier=None):
     """The explored spaces of the tier as TLC describes them: [(name, alphabet tokens, prefix tokens, maxlen)].  One tiny TLC run each."""
     res = []
     for (name, alpha, prefix, maxlen) in SPACES[tier or c.tier]:
-        r = vf.tlc_check("IniTrace.tla", _cfg(c, "space_" + name, "RSpec", ["RepairsConservative"], alpha, prefix, 0), workers=1)
+        r = vf.tlc_check("IniTrace.tla", _cfg(c, "space_" + name, "RSpec", ["Combined"], alpha, prefix, 0), workers=1, extra=NOTE)
         sp = _space_of(r)
         res.append((name, sp["alphabet"], sp["prefix"], maxlen))
     return res
@@ -195,21 +196,21 @@ def main():
     h = vf.build_harness("hooks", "ini")
 
     # ---- the model: the specification alone; then specification and pinned transcription side by side per explored space
-    c.model("Ini.tla", os.path.join(vf.SPEC, "Ini.cfg"))
+    c.model("Ini.tla", os.path.join(vf.SPEC, "Ini.cfg"), extra=NOTE)
     spaces, sizes = [], {}
     for (name, alpha, prefix, maxlen) in SPACES[c.tier]:
-        r = c.model("IniTrace.tla", _cfg(c, "IniRepairs_" + name, "RSpec", ["Combined"], alpha, prefix, maxlen))
+        r = c.model("IniTrace.tla", _cfg(c, "IniRepairs_" + name, "RSpec", ["Combined"], alpha, prefix, maxlen), extra=NOTE)
         sp = _space_of(r)
         spaces.append((name, sp["alphabet"], sp["prefix"], maxlen))
         sizes[name] = r["distinct"]
     va, sl = CONFIGS[c.tier]
     rc = c.model("IniTrace.tla", _cfg(c, "IniConfigs", "CSpec", ["PrintParse", "PrintParsePinned"], "Alpha12", "PrefixNone", 0,
-                                      valalpha=va, strlen=sl, constraint="EmitConf"))
+                                      valalpha=va, strlen=sl, constraint="EmitConf"), extra=NOTE)
     configs = [x for x in rc["printed"] if isinstance(x, list)]
     if len(configs) != rc["distinct"]:
         vf.infra("TLC printed %d configurations for %d states" % (len(configs), rc["distinct"]))
     # the transcription of the pinned tree against the unrestricted properties (a counterexample is expected while /repo is unrepaired)
-    rp = c.model("Ini.tla", os.path.join(vf.SPEC, "IniPinned.cfg"), must_hold=False)
+    rp = c.model("Ini.tla", os.path.join(vf.SPEC, "IniPinned.cfg"), must_hold=False, extra=NOTE)
     c.cov["pinned_transcription_satisfies_properties"] = rp["ok"]
 
     # ---- conformance, round by round: run, bind the explored space, let TLC judge, keep what was rejected
